@@ -84,6 +84,15 @@ pub proof fn lemma_s2u_roundtrip(val: int, size: nat)
 pub open spec fn eh_format(eh_pe: DwEhPe) -> u8 { eh_pe.0 & 0x0f }
 pub open spec fn eh_application(eh_pe: DwEhPe) -> u8 { eh_pe.0 & 0x70 }
 
+/// the same two projections in arithmetic form (bridge to read-side specs that use `% 16` / `/ 16 % 8`)
+pub proof fn lemma_eh_format_arith(eh_pe: DwEhPe)
+    ensures eh_format(eh_pe) == eh_pe.0 % 16, eh_application(eh_pe) == ((eh_pe.0 / 16) % 8) * 16
+{
+    let x = eh_pe.0;
+    assert(x & 0x0fu8 == x % 16u8) by (bit_vector);
+    assert(x & 0x70u8 == ((x / 16u8) % 8u8) * 16u8) by (bit_vector);
+}
+
 /// the field `write_eh_pointer_data(val, format, size)` writes, None if the format is not a value format
 pub open spec fn eh_data_op(val: u64, format: DwEhPe, size: u8) -> Option<WOp> {
     if format.0 == 0x00 { Some(wu(val as nat, size as nat)) }            // DW_EH_PE_absptr: an address-sized word
@@ -185,7 +194,7 @@ pub open spec fn emitted4(old: WView, new: WView, a: WOp, b: WOp, c: WOp, d: WOp
     new.ops == old.ops.push(a).push(b).push(c).push(d) && new.len == l3 + op_len(d, l3) && new.be == old.be
 }
 
-// ---- lemmas for `wrote` (sequence algebra proved once here; `broadcast use crate::wspec::group_wrote;`)
+// ---- lemmas for `wrote` (sequence algebra proved once here; `broadcast use crate::wspec::group_wrote;` = nil, +emitted, ==> grew)
 pub broadcast proof fn lemma_wrote_nil(v: WView)
     ensures #[trigger] wrote(v, v, Seq::<WOp>::empty())
 {
@@ -197,8 +206,10 @@ pub broadcast proof fn lemma_wrote_emitted(a: WView, b: WView, c: WView, s: Seq<
 {
     assert((a.ops + s).push(op) =~= a.ops + s.push(op));
 }
-pub broadcast proof fn lemma_wrote_wrote(a: WView, b: WView, c: WView, s: Seq<WOp>, t: Seq<WOp>)
-    requires #[trigger] wrote(a, b, s), #[trigger] wrote(b, c, t)
+/// NOT in group_wrote and not broadcast: with a == b == c (any term wrote(v, v, s), e.g. a loop-entry invariant) it would
+/// match its own conclusion (s+s, s+s+s, ...) and send z3 into an unbounded matching loop. Call it explicitly.
+pub proof fn lemma_wrote_wrote(a: WView, b: WView, c: WView, s: Seq<WOp>, t: Seq<WOp>)
+    requires wrote(a, b, s), wrote(b, c, t)
     ensures wrote(a, c, s + t)
 {
     assert((a.ops + s) + t =~= a.ops + (s + t));
@@ -217,6 +228,5 @@ pub proof fn lemma_emitted_wrote(a: WView, b: WView, op: WOp)
 pub broadcast group group_wrote {
     lemma_wrote_nil,
     lemma_wrote_emitted,
-    lemma_wrote_wrote,
     lemma_wrote_grew,
 }
